@@ -97,8 +97,9 @@ def r2(chk):
                     continue
                 txt = render(arg).replace(" ", "")
                 key = f"{fi.qual}:{m['method']}#{o}({pname})"
-                chk.expect("R2", key, bool(re.fullmatch(want[pname], txt)), EXPAND, m["line"], "accessor called with something other than the current conversion's " + pname,
-                           expected=want[pname], found=txt)
+                recognised_bad = bool(re.fullmatch(r"&?(Kind::\w+|true|false|ctx\.struct_attr\.\w+(\.\w+)*|ctx\.\w+)", txt)) and not re.fullmatch(want[pname], txt)
+                chk.shape("R2", key, bool(re.fullmatch(want[pname], txt)), recognised_bad, EXPAND, m["line"], "accessor called with something other than the current conversion's " + pname,
+                          expected=want[pname], found=txt)
 
 
 def r3(chk):
